@@ -11,7 +11,7 @@ PROPS = ('C01',)
 
 
 def plan(tier, seed):
-    return [{'mode': 'repotests', 'cost': 3000}] + [{'mode': 'docs', 'slice': i, 'cost': 3000} for i in range(8)] + _histcheck.plan(lambda t: (genhist.n_core_additions(t, genhist.nadd_for(t, tier)) * 2 + genhist.n_core_mixed(t, 1 if tier == 'quick' else 2) * 2 + 400))
+    return [{'mode': 'repotests', 'cost': 3000}] + [{'mode': 'docs', 'slice': i, 'cost': 3000} for i in range(8)] + _histcheck.plan(lambda t: (genhist.n_core_forward_first(t, 2) * 2 + genhist.n_core_additions(t, genhist.nadd_for(t, tier)) * 2 + genhist.n_core_mixed(t, 1 if tier == 'quick' else 2) * 2 + 400))
 
 
 def run_docs(shard, tier, seed):
